@@ -2,11 +2,11 @@
 import random
 
 PID = 'C05'
-HEADER = ['obs nr dttrig dtrem ref ncr']
+HEADER = ['obs nr dttrig dtrem ref ncr tm']
 T0 = 2000000000
 RULE = ('scripts over the real Host/Service + Downtime objects (ops of harness/ops_ckfull.cpp: crf, dt_add, dt_remove, '
-        'dt_starttimer, dt_cleanup, pause, ackread) on a whole-second grid that contains every start/end/trigger+duration '
-        'instant and +-1 s: families fixed-boundary, flexible-edges, chain, children-remove, owned, pause, pending, random; '
+        'dt_starttimer, dt_cleanup (fires only if the REAL clean-up Timer is started and due), dt_pause (authority of the Downtime object), pause, ackread) on a whole-second grid that contains every start/end/trigger+duration '
+        'instant and +-1 s: families fixed-boundary, flexible-edges, chain, children-remove, failover (pause->resume of the downtime object before its expiry, then the timer pump), owned, pause, pending, random; '
         '70 % of the cases avoid the recorded findings\' signatures so they cannot mask anything else. '
         'non-trivial = at least one downtime was added and at least one trigger/removal event was observed; distinct = distinct script text')
 TRUSTED = ['model: coq/Ck/CkFull.v (transcription of Downtime::Start/IsInEffect/IsTriggered/IsExpired/CanBeTriggered/TriggerDowntime/'
@@ -141,6 +141,16 @@ class G:
     def depth(self):
         self.lines.append('ackread')
 
+    def dt_pause(self, i=None, p=None):
+        """authority of the Downtime object itself (HA failover p=1 / failback p=0)"""
+        if not self.dts:
+            return
+        if i is None:
+            i = self.r.choice(sorted(self.dts))
+        if p is None:
+            p = self.r.randint(0, 1)
+        self.lines.append('dt_pause id=%d p=%d' % (i, p))
+
     def pause(self, p=None):
         if p is None:
             p = self.r.randint(0, 1)
@@ -268,9 +278,40 @@ def fam_pending(rnd, clean):
     return g.case('pending')
 
 
+def fam_failover(rnd, clean):
+    """pause -> resume of the Downtime object before / around its expiry, then the timer pump after expiry"""
+    g = G(rnd, clean)
+    fixed = int(rnd.random() < 0.5)
+    S = g.t + rnd.choice((-2, 0, 1))
+    E = S + rnd.choice((3, 6, 10))
+    dur = 0 if fixed else rnd.choice((2, 5))
+    i = g.add(fixed=fixed, start=S, end=E, dur=dur)
+    exp = E
+    steps = ['pause', 'resume', 'trigger', 'pump', 'pause', 'resume', 'adv', 'adv']
+    rnd.shuffle(steps)
+    for k in steps[:rnd.randint(3, 8)]:
+        if k == 'pause': g.dt_pause(i, 1)
+        elif k == 'resume': g.dt_pause(i, 0)
+        elif k == 'trigger':
+            if fixed: g.starttimer()
+            else:
+                g.result(rnd.choice((1, 2, 3)))
+                if S <= g.t <= E and exp == E: exp = g.t + dur
+                for b in (exp - 1, exp, exp + 1): g.bound.add(b)
+        elif k == 'pump': g.cleanup(i)
+        else: g.adv()
+    if rnd.random() < 0.8:
+        g.dt_pause(i, 0)
+    around(rnd, g, (exp,), lambda: (g.cleanup(i), g.depth()))
+    g.at(g.t + 20)
+    g.cleanup(i)
+    g.depth()
+    return g.case('failover')
+
+
 def fam_random(rnd, clean, n):
     g = G(rnd, clean)
-    ops = ['adv'] * 6 + ['result'] * 4 + ['add'] * 3 + ['remove'] + ['starttimer'] * 3 + ['cleanup'] * 2 + ['depth'] * 2 + ['pause']
+    ops = ['adv'] * 6 + ['result'] * 4 + ['add'] * 3 + ['remove'] + ['starttimer'] * 3 + ['cleanup'] * 3 + ['depth'] * 2 + ['pause'] + ['dt_pause'] * 2
     for _ in range(n):
         k = rnd.choice(ops)
         if k == 'adv': g.adv()
@@ -284,6 +325,7 @@ def fam_random(rnd, clean, n):
         elif k == 'cleanup': g.cleanup()
         elif k == 'depth': g.depth()
         elif k == 'pause': g.pause()
+        elif k == 'dt_pause': g.dt_pause()
     return g.case('random')
 
 
@@ -297,6 +339,7 @@ def generate(seed, tier):
         cases.append(fam_flex(rnd, clean))
         cases.append(fam_chain(rnd, clean))
         cases.append(fam_children(rnd, clean))
+        cases.append(fam_failover(rnd, clean))
         cases.append(fam_random(rnd, clean, rnd.randint(8, 40)))
         cases.append(fam_random(rnd, clean, rnd.randint(8, 40)))
         if i % 8 == 0:
